@@ -776,12 +776,15 @@ def collAdd (sch : Schema) (o : ObjId) (c : AttrId) (items : List ObjId) (st : S
       let r := s.row o
       let added0 := r.added c
       let removed0 := r.removed c
-      let isNew := fun x => new.contains x
+      -- new_items -= setdata: a symmetric collection that gets its own owner as an item has it already (reverse_add put it there, with
+      -- all the bookkeeping); only what is not in setdata yet is handled here
+      let rest := new.filter fun x => !(r.items c x)
+      let isNew := fun x => rest.contains x
       let new' : ObjId → Bool := if s.nonEmpty removed0 then fun x => isNew x && !removed0 x else isNew
       let removed1 : ObjId → Bool := if s.nonEmpty removed0 then fun x => removed0 x && !isNew x else removed0
       let added1 : ObjId → Bool := if s.nonEmpty added0 then fun x => added0 x || new' x else new'
       let s1 := s.upd o fun r => { r with items := set1 r.items c (fun x => r.items c x || isNew x),
-                                          count := set1 r.count c (r.count c + new.length),
+                                          count := set1 r.count c (r.count c + rest.length),
                                           added := set1 r.added c added1, removed := set1 r.removed c removed1 }
       .ok (st.setStore { s1 with modColl := set2 s1.modColl c o true, modKey := set1 s1.modKey c true, modified := true })
   | _, _ => .err .noSuchAttr st
